@@ -16,7 +16,7 @@ def rows(path):
     return out
 
 sec8 = []
-sec8.append("### 8.1 Independently seeded changes (two per property)\n")
+sec8.append("### 8.1 Independently seeded changes (three waves: -a and -b for every property, -c for the properties of the third wave)\n")
 sec8.append("Each was written by a fresh sub-agent that saw only the property text and its own scratch worktree, was re-confirmed in a new scratch worktree (existing suite passes with it; its demonstration fails with it and passes without it - `tools/seed_intake.sh`), and is kept under `seeded/<id>/` (patch.diff, demo/, SEEDED.md, meta.json). `tools/seed_matrix.sh` applies each to `/repo`, runs the quick check of its property and reverts.\n")
 sec8.append("| seed | change | needs, to manifest | quick check of its property | first signature | also caught by / strengthening it prompted |")
 sec8.append("|---|---|---|---|---|---|")
